@@ -25,6 +25,7 @@ def run(ctx):
                 'DER and CER bytes compared with Spec.X690.der/cer evaluated in Coq; BER (definite, indefinite, chunked) and CER bytes '
                 'read back by Spec.X690.read; non-trivial = constructed/tagged type or a forced boundary')
     cases = codec.gen_cases(ctx, ctx.n(150, 3000), depth=3, any_der=True)
+    cases += codec.leaf_boundary_cases(ctx, every=3 if ctx.tier == 'quick' else 1)
     nrandom = len(cases)
     cases += boundary_cases(ctx)
     exprs, meta = [], []
